@@ -728,13 +728,30 @@ class Generator(object):
             # the hypotheses of the local iteration lemma must hold here, at the start of the iteration, in context
             for lab, pfact in ls['local']['pre'](L):
                 self.emit_assert(pfact, '%s.local_pre.%s[%s]' % (base_id, lab, self.cfgname), 'inv_step')
+            if ls['local'].get('cases'):
+                from expr import disj
+                self.emit_assert(disj([c(L) for _, c in ls['local']['cases']]), '%s.local_cases_cover[%s]' % (base_id, self.cfgname), 'inv_step')
         self.stmts(lp.body, spec)
         if ls.get('local'):
             pre = ls['local']['pre'](L)
-            post = ls['local']['post'](L)
-            lh = local_iteration_harness(self, lp, L, pre, post, self.prop, self.cfgname)
-            if not any(x.name == lh.name for x in self.side_harnesses):
-                self.side_harnesses.append(lh)
+            Lend = LoopCtx(owner, lp)
+            Lend.ns = getattr(lp, 'ns_end', lp.ns)
+            post = ls['local']['post'](Lend)
+            cases = ls['local'].get('cases')
+            if cases:
+                # case analysis: one array-free harness per case (case condition added to the hypotheses, optional calc steps first);
+                # the cases must cover: asserted in context at the start of the iteration
+                conds = [c(L) for _, c in cases]
+                for (cname, cfn) in cases:
+                    steps = ls['local'].get('steps', lambda LL, cn: [])(Lend, cname)
+                    lh = local_iteration_harness(self, lp, L, pre + [('case_' + cname, cfn(L))], list(steps) + list(post), self.prop, self.cfgname + ',' + cname)
+                    if not any(x.name == lh.name for x in self.side_harnesses):
+                        self.side_harnesses.append(lh)
+                self.pending_case_cover = (base_id, conds)
+            else:
+                lh = local_iteration_harness(self, lp, L, pre, post, self.prop, self.cfgname)
+                if not any(x.name == lh.name for x in self.side_harnesses):
+                    self.side_harnesses.append(lh)
             # the facts are stated about a ghost copy of the loop variable, so that the step obligations for the new element
             # can mention the very same terms
             elem = self.fresh_global('elem', INT)
@@ -1322,6 +1339,7 @@ def local_iteration_harness(gen, lp, L, pre, post, prop, tag):
         obls.append(o)
         o.index = len(obls)
         Lc.append('  __CPROVER_assert(%s, "%s");' % (t, lab))
+        Lc.append('  __CPROVER_assume(%s);' % t)     # later facts may use earlier ones (each is proved given the previous ones)
     o = Obligation('%s/%s/local.reach[%s]' % (prop, lp.key[0], tag), 'reach', 'iteration reachable')
     obls.append(o)
     o.index = len(obls)
